@@ -31,7 +31,7 @@ public:
 
 struct Spec {
     int integ; int nb; std::vector<int> jt;   // joint type per body: 0 pin, 1 ball, 2 free
-    bool rod, plane, cspeed, motion; double g; double amp, rate, phase;
+    bool rod, plane, cspeed, motion; int motionLevel = 0; double g; double amp, rate, phase; double fin = -1; bool sched = false;
     std::vector<double> q0seed;
     double fixedStep = -1; double acc, ctol; int infNorm, projEvery, allowInterp, projInterp; double dtr, tEnd; std::vector<double> wit;
 };
@@ -57,7 +57,7 @@ static void build(const Spec& S, Model& M, double rodLen, double planeH) {
     if (S.rod) Constraint::Rod(M.matter.Ground(), Vec3(1.5, 0.5, 0.3), last, Vec3(0, -1, 0), rodLen);
     if (S.plane) Constraint::PointInPlane(M.matter.Ground(), UnitVec3(0.2, 1, 0.1), planeH, M.bodies[S.nb > 1 ? S.nb - 2 : 0], Vec3(0.1, -0.7, 0.1));
     if (S.cspeed && S.jt[0] == 0 && !S.motion) Constraint::ConstantSpeed(M.bodies[0], 0.7);
-    if (S.motion && S.jt[0] == 0) Motion::Sinusoid(M.bodies[0], Motion::Position, S.amp, S.rate, S.phase);
+    if (S.motion && S.jt[0] == 0) Motion::Sinusoid(M.bodies[0], S.motionLevel == 0 ? Motion::Position : Motion::Velocity, S.amp, S.rate, S.phase);
     for (double a : S.wit) M.system.addEventHandler(new TimeWitness(a));
 }
 static void setQ(const Spec& S, Model& M, State& s) {
@@ -123,22 +123,24 @@ static void emitState(const Spec& S, const Model& M, const Integrator& I, const 
     for (int i = 0; i < uerr.size(); ++i) c.push_back(uerr[i] * uw[i]);
     const char* kind = status == Integrator::ReachedEventTrigger ? "event_before_state" : interp ? "interpolated" : "step";
     vh::D(std::string(INTEG_NAMES[S.integ]) + "." + kind + (must ? "" : ".exempt"));
+    const std::string famk = fam + "." + (status == Integrator::ReachedEventTrigger ? "event" : interp ? "interpolated" : "step");
     const double slack = 1 + 1e-9;
     const double rq = norm(a) / tol, rquat = norm(b) / tol, ru = norm(c) / tol;
     // O: the harness's own floating-point evaluation of the acceptance contract (the driver re-evaluates it exactly)
     vh::O("st").i((!must || (rq <= slack && rquat <= slack && ru <= slack)) ? 1 : 0).emit();
     if (must) {
         acc->q = std::max(acc->q, rq); acc->quat = std::max(acc->quat, rquat); acc->u = std::max(acc->u, ru);
-        vh::P("returned_states_satisfy_position_constraints", fam + ".qerr", rq, slack);
-        vh::P("returned_states_have_normalised_quaternions", fam + ".quat", rquat, slack);
-        vh::P("returned_states_satisfy_velocity_constraints", fam + ".uerr", ru, slack);
+        vh::P("returned_states_satisfy_position_constraints", famk + ".qerr", rq, slack);
+        vh::P("returned_states_have_normalised_quaternions", famk + ".quat", rquat, slack);
+        vh::P("returned_states_satisfy_velocity_constraints", famk + ".uerr", ru, slack);
     }
     if (S.motion && S.jt[0] == 0) {
         const double t = st.getTime();
         const double want = S.amp * std::sin(S.rate * t + S.phase), wantU = S.amp * S.rate * std::cos(S.rate * t + S.phase);
-        const double pe = std::max(std::fabs(M.bodies[0].getOneQ(st, 0) - want), std::fabs(M.bodies[0].getOneU(st, 0) - wantU));
+        const double pe = S.motionLevel == 0 ? std::max(std::fabs(M.bodies[0].getOneQ(st, 0) - want), std::fabs(M.bodies[0].getOneU(st, 0) - wantU))
+                                             : std::fabs(M.bodies[0].getOneU(st, 0) - want);   // velocity level: u = amp sin(rate t + phase), q is integrated
         acc->presc = std::max(acc->presc, pe);
-        vh::P("prescribed_motion_honoured", fam + ".prescribed", pe, 1e-10);
+        vh::P("prescribed_motion_honoured", famk + ".prescribed", pe, 1e-10);
     }
     acc->n++;
 }
@@ -159,6 +161,7 @@ static void session(vh::Rng& r, int integ) {
         if (dof - ncons() < 1) S.plane = false;
         if (dof - ncons() < 1) { S.jt[0] = 1; }      // a lone pin with a rod: make it a ball joint
     }
+    S.motionLevel = r.below(3) == 0 ? 1 : 0;
     S.g = r.range(2.0, 12.0); S.amp = r.range(0.2, 0.8); S.rate = r.range(0.5, 3.0); S.phase = r.range(0, 3);
     for (int i = 0; i < 8; ++i) S.q0seed.push_back(r.range(-0.7, 0.7));
     S.acc = std::pow(10.0, -r.range(2.0, 5.0));
@@ -168,6 +171,8 @@ static void session(vh::Rng& r, int integ) {
     S.fixedStep = (r.below(5) == 0 && integ != 6 && integ < 8) ? r.range(0.01, 0.08) : -1;
     S.dtr = r.range(0.01, 0.15); S.tEnd = r.range(0.3, 1.0);
     int nw = r.below(3); for (int i = 0; i < nw; ++i) S.wit.push_back(r.range(0.05, S.tEnd));
+    if (r.below(4) == 0) S.fin = r.range(0.5, 1.0) * S.tEnd;
+    S.sched = r.below(4) == 0;
     // pass 1: measure the geometry at the chosen configuration so that the constraints are satisfiable there
     double rodLen = 1, planeH = 0;
     {
@@ -193,6 +198,7 @@ static void session(vh::Rng& r, int integ) {
     I.setAccuracy(S.acc);
     if (S.ctol > 0) I.setConstraintTolerance(S.ctol);
     if (S.fixedStep > 0) I.setFixedStepSize(S.fixedStep);
+    if (S.fin > 0) I.setFinalTime(S.fin);
     if (S.infNorm) I.setUseInfinityNorm(true);
     if (S.projEvery) I.setProjectEveryStep(true);
     if (S.allowInterp == 0) I.setAllowInterpolation(false);
@@ -208,7 +214,8 @@ static void session(vh::Rng& r, int integ) {
         I.initialize(state);
         double rep = S.dtr; int guard = 0;
         while (I.getTime() < S.tEnd && guard++ < 5000) {
-            Integrator::SuccessfulStepStatus st = I.stepTo(std::min(rep, S.tEnd), Inf);
+            const double schedT = S.sched ? std::max(I.getAdvancedTime(), std::min(rep, S.tEnd)) + 0.37 * S.dtr : Inf;
+            Integrator::SuccessfulStepStatus st = I.stepTo(std::min(rep, S.tEnd), schedT);
             emitState(S, M, I, I.getState(), (int)st, &W, fam);
             if (st == Integrator::ReachedReportTime && I.getTime() >= std::min(rep, S.tEnd)) { if (rep >= S.tEnd) break; rep += S.dtr; }
             if (st == Integrator::EndOfSimulation) break;
@@ -220,15 +227,207 @@ static void session(vh::Rng& r, int integ) {
     vh::Line L = vh::I("sess"); L.s(INTEG_NAMES[S.integ]).i(W.n).i(failed).s(g_tag); L.emit();
     vh::O("sess").i(1).emit();
     vh::D(std::string(INTEG_NAMES[S.integ]) + (S.fixedStep > 0 ? ".session.fixedStep" : ".session"));
+    if (S.motion) vh::D(S.motionLevel ? "class.motion.velocity_level" : "class.motion.position_level");
+    if (S.fin > 0) vh::D("class.final_time"); if (S.sched) vh::D("class.scheduled_times");
+    std::fprintf(stderr, "MAXRATIO %s %.17g %.17g %.17g\n", fam.c_str(), W.q, W.quat, W.u);
 }
 
+
+// =====================================================================================================================
+// mode "oracle": the DECISION STRUCTURE of attemptDAEStep / takeOneStep / createInterpolatedState /
+// backUpAdvancedStateByInterpolation is driven on a harness-defined System (point mass on a circle: q=(x,y), u=(vx,vy),
+// perr=(r^2-d^2)/2, verr=q.u) whose projectQImpl / projectUImpl are an ORACLE under harness control: they log every call
+// (kind, time, DontThrow?, outcome), really project when they succeed, and fail on demand.  Per Integrator::stepTo call:
+//   I orc <hasErrCtl> <forced> <projInterp> <status|EXC> <interp> <nSteps> | {Q|U <dontThrow> <ok> <sameTimeAsReturned>}*
+//   O orc <status|EXC> <provenance P|R|X> <dConvFail> <uCallsConsistent>
+// provenance (observed) = the handed-out (t,q,u) is bit-for-bit the output of the last successful projectU call (P), is
+// something else (R), or nothing was handed out (X: stepTo threw).  The Lean driver PREDICTS the O line from the call trace
+// with attemptDAECore / stepLoop / handOut of SimbodyModel/C21.lean.
+#include "SimTKcommon/internal/SystemGuts.h"
+namespace orc {
+struct Call { char kind; double t; bool dontThrow, ok; double q0, q1, u0, u1; };
+struct Ctl { std::vector<Call> log; vh::Rng* rng = nullptr; double pFailStep = 0, pFailThrow = 0; bool armed = false; };
+static Ctl* g = nullptr;
+
+class OGuts : public System::Guts {
+public:
+    SubsystemIndex sub; double grav = 9.8, d = 1.0;
+    mutable QIndex q0; mutable UIndex u0; mutable QErrIndex qe; mutable UErrIndex ue; mutable UDotErrIndex ae;
+    OGuts* cloneImpl() const override { return new OGuts(*this); }
+    int realizeTopologyImpl(State& s) const override {
+        const Vector init(2, Real(0));
+        q0 = s.allocateQ(sub, init); u0 = s.allocateU(sub, init);
+        System::Guts::realizeTopologyImpl(s); return 0; }
+    int realizeModelImpl(State& s) const override { System::Guts::realizeModelImpl(s); return 0; }
+    int realizeInstanceImpl(const State& s) const override {
+        qe = s.allocateQErr(sub, 1); ue = s.allocateUErr(sub, 1); ae = s.allocateUDotErr(sub, 1);
+        System::Guts::realizeInstanceImpl(s); return 0; }
+    int realizePositionImpl(const State& s) const override {
+        const Vector& q = s.getQ(sub);
+        s.updQErr(sub)[0] = (q[0] * q[0] + q[1] * q[1] - d * d) / 2;
+        System::Guts::realizePositionImpl(s); return 0; }
+    int realizeVelocityImpl(const State& s) const override {
+        const Vector& q = s.getQ(sub); const Vector& u = s.getU(sub);
+        s.updQDot(sub)[0] = u[0]; s.updQDot(sub)[1] = u[1];
+        s.updUErr(sub)[0] = q[0] * u[0] + q[1] * u[1];
+        System::Guts::realizeVelocityImpl(s); return 0; }
+    int realizeDynamicsImpl(const State& s) const override { System::Guts::realizeDynamicsImpl(s); return 0; }
+    int realizeAccelerationImpl(const State& s) const override {
+        const Vector& q = s.getQ(sub); const Vector& u = s.getU(sub); Vector& ud = s.updUDot(sub);
+        const Real r2 = q[0] * q[0] + q[1] * q[1], v2 = u[0] * u[0] + u[1] * u[1];
+        const Real L = (v2 - grav * q[1]) / r2;
+        ud[0] = -q[0] * L; ud[1] = -q[1] * L - grav;
+        s.updQDotDot() = ud;
+        s.updMultipliers(sub)[0] = L;
+        s.updUDotErr(sub)[0] = q[0] * ud[0] + q[1] * ud[1] + v2;
+        System::Guts::realizeAccelerationImpl(s); return 0; }
+    void multiplyByNImpl(const State&, const Vector& u, Vector& dq) const override { dq = u; }
+    void multiplyByNTransposeImpl(const State&, const Vector& fq, Vector& fu) const override { fu = fq; }
+    void multiplyByNPInvImpl(const State&, const Vector& dq, Vector& u) const override { u = dq; }
+    void multiplyByNPInvTransposeImpl(const State&, const Vector& fu, Vector& fq) const override { fq = fu; }
+    bool prescribeQImpl(State&) const override { return false; }
+    bool prescribeUImpl(State&) const override { return false; }
+
+    bool decideFail(bool dontThrow) const {
+        if (!g || !g->armed || !g->rng) return false;
+        return g->rng->unit() < (dontThrow ? g->pFailStep : g->pFailThrow);
+    }
+    void projectQImpl(State& s, Vector& qErrEst, const ProjectOptions& o, ProjectResults& res) const override {
+        const bool dontThrow = o.isOptionSet(ProjectOptions::DontThrow);
+        const Real w = s.getQErrWeights(sub)[0];
+        const Real normIn = std::abs(w * s.getQErr(sub)[0]);
+        bool ok = true;
+        if (normIn > o.getProjectionLimit()) { res.setProjectionLimitExceeded(true); ok = false; }
+        if (ok && decideFail(dontThrow)) ok = false;
+        bool changed = false;
+        if (ok && (normIn > o.getRequiredAccuracy() || o.isOptionSet(ProjectOptions::ForceProjection))) {
+            Vector& q = s.updQ(sub);
+            const Real r = std::sqrt(q[0] * q[0] + q[1] * q[1]);
+            q[0] *= d / r; q[1] *= d / r; changed = true;
+            realize(s, Stage::Position);
+            if (qErrEst.size()) {   // remove the radial component of the error estimate
+                const Vector& qq = s.getQ(sub); const Real dotp = (qq[0] * qErrEst[0] + qq[1] * qErrEst[1]) / (d * d);
+                qErrEst[0] -= dotp * qq[0]; qErrEst[1] -= dotp * qq[1];
+            }
+        }
+        if (g && g->armed) g->log.push_back({'Q', s.getTime(), dontThrow, ok, s.getQ(sub)[0], s.getQ(sub)[1], 0, 0});
+        if (!ok) {
+            res.setExitStatus(ProjectResults::FailedToConverge);
+            if (!dontThrow) SimTK_THROW1(Exception::Cant, "oracle: projectQ refused");
+            return;
+        }
+        res.setAnyChangeMade(changed); res.setExitStatus(ProjectResults::Succeeded);
+    }
+    void projectUImpl(State& s, Vector& uErrEst, const ProjectOptions& o, ProjectResults& res) const override {
+        const bool dontThrow = o.isOptionSet(ProjectOptions::DontThrow);
+        realize(s, Stage::Velocity);
+        const Real w = s.getUErrWeights(sub)[0];
+        const Real normIn = std::abs(w * s.getUErr(sub)[0]);
+        bool ok = true;
+        if (normIn > o.getProjectionLimit()) { res.setProjectionLimitExceeded(true); ok = false; }
+        if (ok && decideFail(dontThrow)) ok = false;
+        bool changed = false;
+        if (ok && (normIn > o.getRequiredAccuracy() || o.isOptionSet(ProjectOptions::ForceProjection))) {
+            const Vector& q = s.getQ(sub); Vector& u = s.updU(sub);
+            const Real r2 = q[0] * q[0] + q[1] * q[1], c = (q[0] * u[0] + q[1] * u[1]) / r2;
+            u[0] -= c * q[0]; u[1] -= c * q[1]; changed = true;
+            realize(s, Stage::Velocity);
+            if (uErrEst.size()) { const Real c2 = (q[0] * uErrEst[0] + q[1] * uErrEst[1]) / r2; uErrEst[0] -= c2 * q[0]; uErrEst[1] -= c2 * q[1]; }
+        }
+        if (g && g->armed) g->log.push_back({'U', s.getTime(), dontThrow, ok, s.getQ(sub)[0], s.getQ(sub)[1], s.getU(sub)[0], s.getU(sub)[1]});
+        if (!ok) {
+            res.setExitStatus(ProjectResults::FailedToConverge);
+            if (!dontThrow) SimTK_THROW1(Exception::Cant, "oracle: projectU refused");
+            return;
+        }
+        res.setAnyChangeMade(changed); res.setExitStatus(ProjectResults::Succeeded);
+    }
+};
+class Sys : public System {
+public:
+    Sys() { adoptSystemGuts(new OGuts()); DefaultSystemSubsystem defsub(*this);
+            dynamic_cast<OGuts&>(updSystemGuts()).sub = defsub.getMySubsystemIndex(); setHasTimeAdvancedEvents(false); }
+    OGuts& guts() { return dynamic_cast<OGuts&>(updSystemGuts()); }
+};
+
+static void session(vh::Rng& r, int integ /*0..3: RK family with the default attemptDAEStep*/) {
+    Ctl ctl; ctl.rng = &r; g = &ctl;
+    Sys sys; sys.guts().grav = r.range(2.0, 12.0);
+    const int nw = r.below(3);
+    for (int i = 0; i < nw; ++i) sys.addEventHandler(new TimeWitness(r.range(0.05, 0.8)));
+    State state = sys.realizeTopology();
+    const double th = r.range(-2.5, 2.5);
+    state.updQ()[0] = std::sin(th); state.updQ()[1] = -std::cos(th);
+    const double w0 = r.range(-2, 2);
+    state.updU()[0] = w0 * std::cos(th); state.updU()[1] = w0 * std::sin(th);
+    std::unique_ptr<Integrator> IP(makeInteg(integ, sys));
+    Integrator& I = *IP;
+    const bool forced = r.below(3) == 0;
+    const int projInterp = r.below(4) == 0 ? 0 : 1;
+    I.setAccuracy(std::pow(10.0, -r.range(1.0, 5.0)));
+    if (r.below(2)) I.setConstraintTolerance(std::pow(10.0, -r.range(3.0, 9.0)));
+    if (forced) I.setFixedStepSize(r.range(0.01, 0.2));
+    if (r.below(3) == 0) I.setProjectEveryStep(true);
+    if (projInterp == 0) I.setProjectInterpolatedStates(false);
+    I.setReturnEveryInternalStep(true);      // one takeOneStep per call at most
+    ctl.pFailStep = r.below(2) ? r.range(0.05, 0.4) : 0.0;
+    ctl.pFailThrow = r.below(6) == 0 ? 0.05 : 0.0;
+    { const double ps = ctl.pFailStep, pt = ctl.pFailThrow; ctl.pFailStep = ctl.pFailThrow = 0; ctl.armed = true;
+      try { I.initialize(state); } catch (const std::exception&) { g = nullptr; return; }
+      ctl.pFailStep = ps; ctl.pFailThrow = pt; }
+    std::vector<Call> initLog = ctl.log;
+    const double dtr = r.range(0.01, 0.2), tEnd = r.range(0.3, 1.0);
+    double rep = dtr; int guard = 0;
+    std::vector<Call> okU;     // every successful projectU output of the session
+    for (auto& c : initLog) if (c.kind == 'U' && c.ok) okU.push_back(c);
+    while (I.getTime() < tEnd && guard++ < 400) {
+        ctl.log.clear();
+        const int s0 = I.getNumStepsTaken(), c0 = I.getNumConvergenceTestFailures(), e0 = I.getNumErrorTestFailures();
+        bool exc = false, otherExc = false; int status = 0;
+        try { status = (int)I.stepTo(std::min(rep, tEnd), Inf); } catch (const std::exception& e) { exc = true; otherExc = std::string(e.what()).find("oracle:") == std::string::npos; if (std::getenv("C21_DEBUG")) std::fprintf(stderr, "ORC EXC: %.400s\n", e.what()); }
+        // exceptions that do not come from a refused projection (e.g. step size collapse "Unable to advance time") are outside the
+        // decision structure modelled here: the session just ends
+        if (otherExc) { vh::D("oracle.other_exception"); break; }
+        const int nSteps = I.getNumStepsTaken() - s0, dConv = I.getNumConvergenceTestFailures() - c0, dErr = I.getNumErrorTestFailures() - e0;
+        vh::Line L = vh::I("orc");
+        L.i(1).i(forced).i(projInterp);
+        if (exc) L.s("EXC"); else L.i(status);
+        const bool interp = !exc && I.isStateInterpolated();
+        L.i(interp).i(nSteps).i(dErr).s("|");
+        const State* st = exc ? nullptr : &I.getState();
+        for (auto& c : ctl.log) { L.s(std::string(1, c.kind)).i(c.dontThrow).i(c.ok).i(st && c.t == st->getTime()).i(c.t == I.getAdvancedTime());
+                                  if (c.kind == 'U' && c.ok) okU.push_back(c); }
+        L.s(INTEG_NAMES[integ]).s(g_tag);
+        L.emit();
+        // observed provenance of the handed-out state
+        char prov = 'X';
+        if (!exc) {
+            prov = 'R';
+            for (const Call& c : okU)
+                if (c.t == st->getTime() && c.q0 == st->getQ()[0] && c.q1 == st->getQ()[1] && c.u0 == st->getU()[0] && c.u1 == st->getU()[1]) prov = 'P';
+        }
+        // structural consistency seen by the harness itself: every Q(ok) is followed by a U of the same kind, every Q(fail) is not
+        vh::Line O = vh::O("orc");
+        if (exc) O.s("EXC"); else O.i(status);
+        O.s(std::string(1, prov)).i(dConv);
+        O.emit();
+        vh::D(std::string("oracle.") + (exc ? "exception" : interp ? (status == 2 ? "event_before_state" : "interpolated") : nSteps ? "step" : "nostep")
+              + (forced ? ".forced" : "") + "." + std::string(1, prov));
+        if (exc) break;
+        if (status == Integrator::ReachedReportTime && I.getTime() >= std::min(rep, tEnd)) { if (rep >= tEnd) break; rep += dtr; }
+    }
+    g = nullptr;
+}
+} // namespace orc
+
+static std::string g_mode;
 static void runOne(unsigned long long seed, long idx) {
     vh::Rng rng(seed * 15485863 + 29);
     for (long i = 0; i <= idx; ++i) {
         vh::Rng sub(rng.next());
         if (i < idx) continue;
-        g_tag = "seed " + std::to_string(seed) + " " + std::to_string(idx);
-        session(sub, (int)(i % 10));
+        g_tag = "seed " + g_mode + " " + std::to_string(seed) + " " + std::to_string(idx);
+        if (g_mode == "oracle") orc::session(sub, (int)(i % 4)); else session(sub, (int)(i % 10));
     }
 }
 
@@ -240,14 +439,15 @@ int main(int argc, char** argv) {
             std::istringstream is(line); std::vector<std::string> t; std::string x;
             while (is >> x) t.push_back(x);
             if (t.size() < 3 || t[0] != "I") continue;
-            for (size_t i = 2; i + 2 < t.size(); ++i)
+            for (size_t i = 2; i + 3 < t.size(); ++i)
                 if (t[i] == "seed") {
-                    const std::string key = t[i + 1] + " " + t[i + 2];
-                    if (key != last) { last = key; runOne(std::strtoull(t[i + 1].c_str(), nullptr, 10), std::atol(t[i + 2].c_str())); }
+                    const std::string key = t[i + 1] + " " + t[i + 2] + " " + t[i + 3];
+                    if (key != last) { last = key; g_mode = t[i + 1]; runOne(std::strtoull(t[i + 2].c_str(), nullptr, 10), std::atol(t[i + 3].c_str())); }
                 }
         }
         return 0;
     }
+    g_mode = a.mode.empty() ? "mb" : a.mode;
     for (long i = 0; i < a.n; ++i) runOne(a.seed, i);
     return 0;
 }
